@@ -29,7 +29,7 @@ def valid_lines(rng):
 def render(lines):
     return "\n".join(" ".join(l) for l in lines)
 
-MULTI = ["/* a\nb */", "/* x */", "// rem\n", "[2 c\n d]", "Sub{ c\n d }", "{c\nd e}4", "'c\neg'", "[3 c :\n\n d]", "PRINT(\n1)" ]
+MULTI = ["/* a\nb */", "/* x */", "// rem\n", "[2 c\n d]", "Sub{ c\n d }", "{c\nd e}4", "'c\neg'", "[3 c :\n\n d]", "~{ぱ}={c\nd}", "~{ぴ} = {\nr\n\n}", "PRINT(\n1)" ]      # (word definitions of the Japanese notation may span lines too)
 
 def gen_flat(rng):
     """flat token list with explicit separators; tokens may span lines; a '^' continuation directly follows a note across line breaks.
